@@ -133,13 +133,15 @@ def stmt(i, fam, c, pkg):
             return head + "\tprintln(u64(adler32.Checksum(%s)))\n" % b
         if fn == "crc32.ChecksumIEEE":
             return head + "\tprintln(u64(crc32.ChecksumIEEE(%s)))\n" % b
+        if fn == "md5.Sum":
+            return head + "\td%d := md5.New()\n\td%d.Write(%s)\n\tprintln(\"[\" + hex.EncodeToString(d%d.Sum(nil)) + \"]\")\n" % (i, i, b, i)
         ctor = fn.split(".")[1]
         return head + "\th%d := fnv.%s()\n\th%d.Write(%s)\n\tprintln(u64(h%d.Sum32()))\n" % (i, ctor, i, b, i)
     raise MachineryError("family " + fam)
 
 
 IMPORTS = {"strings": ["strings"], "bytes": ["bytes"], "strconv": ["strconv"], "utf8": ["unicode/utf8"], "codec": ["encoding/hex", "encoding/base64"], "bits": ["math/bits"],
-           "sort": ["sort"], "hash": ["hash/adler32", "hash/crc32", "hash/fnv"]}
+           "sort": ["sort"], "hash": ["hash/adler32", "hash/crc32", "hash/fnv", "crypto/md5", "encoding/hex"]}
 
 
 def skip(fam, pkg, c):
@@ -164,8 +166,8 @@ def run(chk):
     wa = common.build_wa()
     thorough = chk.tier == "thorough"
     chk.assume("argument spaces: strings over {a, b, space} up to length %d (plus two mixed-case strings), separators up to length 2; integers from a 25-value boundary set below 2^31 "
-               "(TLC integers are 32-bit: 64-bit formatting/parsing limits, floating-point conversion, md5 and the container packages are not decided); byte strings over UTF-8 byte "
-               "classes up to length 3 plus named 4-byte sequences; math/bits at 8/16/32/64 bits on 9 bit patterns; hashes on byte strings up to length 3 plus three longer ones"
+               "(TLC integers are 32-bit: 64-bit formatting/parsing limits, floating-point conversion and the container packages are not decided); byte strings over UTF-8 byte "
+               "classes up to length 3 plus named 4-byte sequences; math/bits at 8/16/32/64 bits on 9 bit patterns; hashes on byte strings up to length 3 plus three longer ones; md5 on 14 message lengths around its padding boundaries"
                % (4 if thorough else 3))
     res = common.run_tlc("std", "StdLib", "std4.cfg" if thorough else "std.cfg", collect_prefix='<<"T"', timeout=3000)
     if res.violated:
